@@ -363,6 +363,33 @@ fn special_programs() -> Vec<Program> {
             b::print(PrintKind::Reg),
         ],
     });
+    // procedures and the data stack: a result handed back on the stack, a procedure that pops its argument,
+    // nested calls around pushes (return addresses do not live on the emulated stack)
+    {
+        let ax = || b::r16("ax");
+        let bx = || b::r16("bx");
+        v.push(Program {
+            data: vec![],
+            code: vec![
+                b::proc("f", vec![b::push(bx())]),
+                b::proc("g", vec![b::pop(b::r16("si")), Item::Ins(Instr::Un(UnOp::Inc, Opnd::R16(R_SI))), b::push(b::r16("si"))]),
+                b::proc("h", vec![b::push(ax()), b::call("f"), b::pop(b::r16("di")), b::pop(b::r16("bp"))]),
+                b::label("start"),
+                b::mov(ax(), b::imm(0x0031)),
+                b::mov(bx(), b::imm(0x00AA)),
+                b::push(ax()),
+                b::call("f"),
+                b::pop(b::r16("cx")),
+                b::pop(b::r16("dx")),
+                b::print(PrintKind::Reg),
+                b::push(bx()),
+                b::call("g"),
+                b::pop(b::r16("di")),
+                b::call("h"),
+                b::print(PrintKind::Reg),
+            ],
+        });
+    }
     // a procedure and a label that share their name (separate name spaces): forward and backward jumps
     v.push(Program {
         data: vec![],
